@@ -1,63 +1,73 @@
 (* C02 — the property statement itself, for the container families its quantifier names ("all container histories of
-   C01 / C04 / C09") and bitset: ANY program = any list of calls, each addressed to one of two static_vectors, an
-   inplace_string, a pair of sets (static_set or flat_set) or a pair of bitsets, valid or not, in any order and mix,
-   started on freshly constructed objects of ANY capacities / widths / character type / element type and comparator:
-   every call returns or is stopped by its TETL_PRECONDITION (which ends the program); no call is undefined, no loop
-   runs out of fuel, and the objects satisfy their representation invariants afterwards.
+   C01 / C04 / C09") and more: ANY program = any list of calls, each addressed to one of two static_vectors, an
+   inplace_string, a pair of sets (static_set or flat_set), a pair of bitsets, two inplace_vectors, two variants or
+   three optionals, valid or not, in any order and mix, started on freshly constructed objects of ANY capacities /
+   widths / character type / element type and comparator / list of alternatives: every call returns or is stopped by
+   its TETL_PRECONDITION (which ends the program); no call is undefined, no loop runs out of fuel, and the objects
+   satisfy their representation invariants afterwards.
    The model of the program and the induction are in C02/ProofsProgram.v; the one-step facts are the theorems of the
-   packages C01, C04, C09, C17. *)
+   packages C01, C04, C07, C09, C17. *)
 From Tetl Require Import Lib.Base C02.Safe C02.ProofsProgram.
-From Tetl Require C01.Model C01.ProofsBase C01.ProofsStep C08.Model C04.Model C04.Inv C04.InvOps C04.Total
-  C09.Ops C09.Model C09.ProofsRun C17.Ops C17.Model C17.History.
+From Tetl Require C01.Model C01.ProofsBase C01.ProofsStep C01.ProofsIv C08.Model C04.Model C04.Inv C04.InvOps C04.Total
+  C07.Types C07.Model C07.VariantProofs C07.OptionalProofs C09.Ops C09.Model C09.ProofsRun C09.Properties C17.Ops C17.Model C17.History.
 Local Open Scope Z_scope.
 
 Theorem C02_container_programs_no_ub :
   forall (pred : Z -> Z -> bool) (vcap : nat), Z.of_nat vcap < 2 ^ 63 ->
   forall (A : Type) (lt : A -> A -> bool), C09.ProofsRun.strict_weak lt ->
   forall (kind : C09.Ops.kind) (scap bits wk : nat), (0 < bits)%nat ->
+  forall (icap : nat), Z.of_nat icap < 2 ^ 63 ->
+  forall (alts : list C07.Types.ty) (oT oU : C07.Types.ty), alts <> [] ->
   forall (strcap : Z) (ck : C08.Model.charkind), C04.Inv.cap_ok strcap ->
   forall program : list (call A),
-  Forall (call_ok A lt kind) program ->
-  no_ub (run_world pred A lt kind scap bits wk (fresh vcap A bits wk strcap ck) program) /\
-  (forall w', run_world pred A lt kind scap bits wk (fresh vcap A bits wk strcap ck) program = Ok w' ->
-              world_inv vcap A lt scap bits wk w').
+  Forall (call_ok A lt kind alts) program ->
+  let w0 := fresh vcap A bits wk icap strcap ck in
+  no_ub (run_world pred A lt kind scap bits wk alts oT oU w0 program) /\
+  (forall w', run_world pred A lt kind scap bits wk alts oT oU w0 program = Ok w' ->
+              world_inv vcap A lt scap bits wk icap alts w').
 Proof.
-  intros pred vcap Hv A lt Hlt kind scap bits wk Hb strcap ck Hc program Hp.
-  apply (run_world_no_ub pred vcap Hv A lt Hlt kind scap bits wk Hb program); [|exact Hp].
+  intros pred vcap Hv A lt Hlt kind scap bits wk Hb icap Hi alts oT oU Ha strcap ck Hc program Hp. cbv zeta.
+  apply (run_world_no_ub pred vcap Hv A lt Hlt kind scap bits wk Hb icap Hi alts oT oU program); [|exact Hp].
   apply fresh_inv; assumption.
 Qed.
 Print Assumptions C02_container_programs_no_ub.
 
-(* the same from ANY world whose four components satisfy their invariants (reachable or not) *)
+(* the same from ANY world whose components satisfy their invariants (reachable or not) *)
 Theorem C02_container_programs_no_ub_from_any_state :
   forall (pred : Z -> Z -> bool) (vcap : nat), Z.of_nat vcap < 2 ^ 63 ->
   forall (A : Type) (lt : A -> A -> bool), C09.ProofsRun.strict_weak lt ->
   forall (kind : C09.Ops.kind) (scap bits wk : nat), (0 < bits)%nat ->
-  forall (w : world A) (program : list (call A)),
-  world_inv vcap A lt scap bits wk w -> Forall (call_ok A lt kind) program ->
-  no_ub (run_world pred A lt kind scap bits wk w program) /\
-  (forall w', run_world pred A lt kind scap bits wk w program = Ok w' -> world_inv vcap A lt scap bits wk w').
+  forall (icap : nat), Z.of_nat icap < 2 ^ 63 ->
+  forall (alts : list C07.Types.ty) (oT oU : C07.Types.ty) (w : world A) (program : list (call A)),
+  world_inv vcap A lt scap bits wk icap alts w -> Forall (call_ok A lt kind alts) program ->
+  no_ub (run_world pred A lt kind scap bits wk alts oT oU w program) /\
+  (forall w', run_world pred A lt kind scap bits wk alts oT oU w program = Ok w' ->
+              world_inv vcap A lt scap bits wk icap alts w').
 Proof.
-  intros pred vcap Hv A lt Hlt kind scap bits wk Hb w program I Hp.
-  exact (run_world_no_ub pred vcap Hv A lt Hlt kind scap bits wk Hb program w I Hp).
+  intros pred vcap Hv A lt Hlt kind scap bits wk Hb icap Hi alts oT oU w program I Hp.
+  exact (run_world_no_ub pred vcap Hv A lt Hlt kind scap bits wk Hb icap Hi alts oT oU program w I Hp).
 Qed.
 Print Assumptions C02_container_programs_no_ub_from_any_state.
 
-(* non-vacuity: a program that mixes the four families, fills the vector and the string exactly, and ends with a call
+(* non-vacuity: a program that mixes the families, fills the vector and the string exactly, and ends with a call
    that violates a precondition (push_back on the full vector): the run is stopped there, not undefined *)
 Example C02_program_nonvacuous :
+  let alts := [C07.Types.TInt; C07.Types.TTr; C07.Types.TFloat] in
   let prog : list (call Z) :=
     [CVec Z (C01.Model.PushBack false 5); CStr Z (C04.Model.OAppendFill 15 97); CSet Z (C09.Ops.Insert 3);
      CBits Z C17.Ops.OSetAll; CVec Z (C01.Model.PushBack false 6); CSet Z (C09.Ops.Insert 3);
+     CIvec Z (C01.Model.IvTryPush false 9); CVar Z (C07.Types.VEmplace false 1 2); COpt Z (C07.Types.OReset false);
      CStr Z (C04.Model.OPopBack); CVec Z (C01.Model.PushBack false 7)] in
-  Forall (call_ok Z Z.ltb C09.Ops.StaticSet) prog /\
-  C09.ProofsRun.strict_weak Z.ltb /\
-  run_world (fun _ x => Z.even x) Z Z.ltb C09.Ops.StaticSet 2 65 6 (fresh 2 Z 65 6 15 C08.Model.CChar) prog = Contract /\
-  (exists w, run_world (fun _ x => Z.even x) Z Z.ltb C09.Ops.StaticSet 2 65 6 (fresh 2 Z 65 6 15 C08.Model.CChar)
-               (firstn 7 prog) = Ok w /\ C01.Model.elems (fst (w_vecs Z w)) = [5; 6]).
+  let run := run_world (fun _ x => Z.even x) Z Z.ltb C09.Ops.StaticSet 2 65 6 alts C07.Types.TInt C07.Types.TInt
+                       (fresh 2 Z 65 6 1 15 C08.Model.CChar) in
+  Forall (call_ok Z Z.ltb C09.Ops.StaticSet alts) prog /\
+  C09.ProofsRun.strict_weak Z.ltb /\ alts <> [] /\
+  run prog = Contract /\
+  (exists w, run (firstn 10 prog) = Ok w /\ C01.Model.elems (fst (w_vecs Z w)) = [5; 6] /\
+             C01.Model.elems (fst (w_ivecs Z w)) = [9]).
 Proof.
-  cbv zeta. split; [|split; [exact (proj1 (proj2 C09.Properties.C09_nonvacuous))|split]].
-  - repeat constructor; cbn; unfold C04.InvOps.szt; lia.
+  cbv zeta. split; [|split; [exact (proj1 (proj2 C09.Properties.C09_nonvacuous))|split; [discriminate|split]]].
+  - repeat constructor; cbn; unfold C04.InvOps.szt; try lia.
   - vm_compute. reflexivity.
-  - eexists. split; [vm_compute; reflexivity|]. reflexivity.
+  - eexists. split; [vm_compute; reflexivity|]. split; reflexivity.
 Qed.
